@@ -411,8 +411,22 @@ def r03_4(ctx: Ctx, taint: Taint, closure, sinks, link_sinks, roots) -> None:
                     continue
                 chk = cs.node
                 kn = q.node_for(f, chk)
-                if not (cfg.dominates(kn, cn) and (kn is not cn)):
+                if kn is cn:
                     continue
+                if not cfg.dominates(kn, cn):
+                    # the check may sit under `not isinstance(<path>, MemIO)`: in-memory outputs are not filesystem sinks.
+                    # Accept when every path from the definition of the sink's path variable to the sink passes the check
+                    # or the true edge of an isinstance(<same variable>, MemIO) test.
+                    roots_op0 = [n.id for n in ast.walk(operand) if isinstance(n, ast.Name)]
+                    mem_edges = [n for n in cfg.nodes if n.kind == "true" and isinstance(n.ast, ast.Call) and dotted(n.ast.func) == "isinstance"
+                                 and len(n.ast.args) == 2 and isinstance(n.ast.args[0], ast.Name) and n.ast.args[0].id in roots_op0 and "MemIO" in norm(n.ast.args[1])]
+                    mem_edges += [n for n in cfg.nodes if n.kind == "false" and isinstance(n.ast, ast.UnaryOp) and isinstance(n.ast.op, ast.Not)
+                                  and isinstance(n.ast.operand, ast.Call) and dotted(n.ast.operand.func) == "isinstance" and len(n.ast.operand.args) == 2
+                                  and isinstance(n.ast.operand.args[0], ast.Name) and n.ast.operand.args[0].id in roots_op0 and "MemIO" in norm(n.ast.operand.args[1])]
+                    defs = [q.node_for(f, d) for nm in roots_op0 for d in [x for x in walk(f.node) if isinstance(x, ast.Assign)
+                                                                          and any(isinstance(t, ast.Name) and t.id == nm for t in x.targets)]]
+                    if not defs or not mem_edges or any(cfg.reaches(d, cn, avoid=[kn] + mem_edges) for d in defs):
+                        continue
                 # the check must involve the sink path (or its parent) and the destination
                 roots_op = {n.id for n in ast.walk(operand) if isinstance(n, ast.Name)}
                 involved = any(isinstance(n, ast.Name) and n.id in roots_op for a in chk.args for n in ast.walk(a))
